@@ -485,6 +485,20 @@ theorem good_writeHeader (s : St) (c : Nat) (hg : Good s) : Good (writeHeader s 
   · rw [ho, k.buf, k.acc]; exact hg.get (k.isHead ▸ h)
   · rw [ho]; exact hg.head (k.isHead ▸ h)
 
+theorem good_head_of (r : St) (k : Inv r) (hi : r.isHead = true) (hb : bodyOf r.out = []) : Good r :=
+  ⟨k, (fun h => by rw [hi] at h; cases h), fun _ => hb⟩
+
+theorem good_rwWriteHead (env : Env) (s : St) (p : List Nat) (hg : Good s) (hh : s.isHead = true) :
+    Good (rwWriteHead env s p) ∧ (rwWriteHead env s p).isHead = true := by
+  obtain ⟨b1, b2, _, b4, _, _⟩ := good_bwWrite env s p hg
+  have hi : (bwWrite env s p).isHead = true := b2.trans hh
+  unfold rwWriteHead
+  split
+  · exact ⟨good_head_of _ ⟨hg.inv.snap, hg.inv.tr, hg.inv.out⟩ hh (hg.head hh), hh⟩
+  · split
+    · exact ⟨good_head_of _ ⟨b1.snap, b1.tr, b1.out⟩ hi (b4 hh), hi⟩
+    · exact ⟨good_head_of _ ⟨b1.snap, b1.tr, b1.out⟩ hi (b4 hh), hi⟩
+
 theorem good_rwWrite (env : Env) (s : St) (p : List Nat) (hg : Good s) : Good (rwWrite env s p) := by
   unfold rwWrite
   generalize hs1 : (if (!s.wroteHeader) = true then writeHeader s 200 else s) = s1
@@ -499,16 +513,19 @@ theorem good_rwWrite (env : Env) (s : St) (p : List Nat) (hg : Good s) : Good (r
     · exact ⟨⟨g1.inv.snap, g1.inv.tr, g1.inv.out⟩, g1.get, g1.head⟩
     · have g2 : Good { s1 with wroteBytes := s1.wroteBytes + p.length } :=
         ⟨⟨g1.inv.snap, g1.inv.tr, g1.inv.out⟩, g1.get, g1.head⟩
-      obtain ⟨b1, b2, b3, b4, b5, _⟩ := good_bwWrite env _ p g2
-      refine ⟨⟨b1.snap, b1.tr, b1.out⟩, fun h => ?_, fun h => ?_⟩
-      · simp only [] at h ⊢
-        rw [b3 (b2 ▸ h), b5]
-      · simp only [] at h ⊢
-        exact b4 (b2 ▸ h)
+      split
+      · rename_i hh
+        exact (good_rwWriteHead env _ p g2 hh).1
+      · obtain ⟨b1, b2, b3, b4, b5, _⟩ := good_bwWrite env _ p g2
+        refine ⟨⟨b1.snap, b1.tr, b1.out⟩, fun h => ?_, fun h => ?_⟩
+        · simp only [] at h ⊢
+          rw [b3 (b2 ▸ h), b5]
+        · simp only [] at h ⊢
+          exact b4 (b2 ▸ h)
 
-theorem good_rwFlush (env : Env) (s : St) (hg : Good s) :
-    Good (rwFlush env s) ∧ (rwFlush env s).buf = [] ∧ (rwFlush env s).acc = s.acc ∧ (rwFlush env s).isHead = s.isHead := by
-  unfold rwFlush
+theorem good_rwFlushGet (env : Env) (s : St) (hg : Good s) :
+    Good (rwFlushGet env s) ∧ (rwFlushGet env s).buf = [] ∧ (rwFlushGet env s).acc = s.acc ∧ (rwFlushGet env s).isHead = s.isHead := by
+  unfold rwFlushGet
   split
   · obtain ⟨k, g, hd⟩ := writeChunk_props env { s with buf := [] } s.buf
     refine ⟨⟨k.inv (inv_setBuf s [] hg.inv), fun h => ?_, fun h => ?_⟩, k.buf, k.acc, k.isHead⟩
@@ -525,6 +542,34 @@ theorem good_rwFlush (env : Env) (s : St) (hg : Good s) :
       have := hg.get (k.isHead ▸ h); rw [hb', List.append_nil] at this; rw [this, hb', List.append_nil]
     · rw [hd (k.isHead ▸ h)]; exact hg.head (k.isHead ▸ h)
 
+theorem good_rwFlushHead (env : Env) (s : St) (hg : Good s) (hh : s.isHead = true) :
+    Good (rwFlushHead env s) ∧ (rwFlushHead env s).acc = s.acc ∧ (rwFlushHead env s).isHead = true := by
+  unfold rwFlushHead
+  split
+  · split
+    · exact ⟨hg, rfl, hh⟩
+    · obtain ⟨k, _, hd⟩ := writeChunk_props env { s with buf := [] } s.buf
+      have ki := k.inv (inv_setBuf s [] hg.inv)
+      have hi : (writeChunk env { s with buf := [] } s.buf).isHead = true := k.isHead.trans hh
+      have hb := (hd hh).trans (hg.head hh)
+      split
+      · exact ⟨good_head_of _ ⟨ki.snap, ki.tr, ki.out⟩ hi hb, k.acc, hi⟩
+      · exact ⟨good_head_of _ ki hi hb, k.acc, hi⟩
+  · obtain ⟨k, _, hd⟩ := writeChunk_props env s []
+    have hi : (writeChunk env s []).isHead = true := k.isHead.trans hh
+    exact ⟨good_head_of _ (k.inv hg.inv) hi ((hd hh).trans (hg.head hh)), k.acc, hi⟩
+
+theorem good_rwFlush (env : Env) (s : St) (hg : Good s) :
+    Good (rwFlush env s) ∧ (s.isHead = false → (rwFlush env s).buf = []) ∧ (rwFlush env s).acc = s.acc ∧
+    (rwFlush env s).isHead = s.isHead := by
+  unfold rwFlush
+  split
+  · rename_i hh
+    obtain ⟨a, b, c⟩ := good_rwFlushHead env s hg hh
+    exact ⟨a, (fun h => by rw [hh] at h; cases h), b, c.trans hh.symm⟩
+  · obtain ⟨a, b, c, d⟩ := good_rwFlushGet env s hg
+    exact ⟨a, fun _ => b, c, d⟩
+
 theorem good_step (env : Env) (s : St) (a : Act) (hg : Good s) : Good (step env s a) := by
   cases a with
   | add k v => exact ⟨⟨hg.inv.snap, hg.inv.tr, hg.inv.out⟩, hg.get, hg.head⟩
@@ -532,6 +577,31 @@ theorem good_step (env : Env) (s : St) (a : Act) (hg : Good s) : Good (step env 
   | status c => exact good_writeHeader s c hg
   | write p => exact good_rwWrite env s p hg
   | flush => exact (good_rwFlush env s hg).1
+
+theorem bwWrite_isHead (env : Env) (s : St) (p : List Nat) : (bwWrite env s p).isHead = s.isHead := by
+  unfold bwWrite
+  split
+  · rfl
+  · split
+    · exact (writeChunk_props env _ p).1.isHead
+    · simp only []
+      split
+      · exact (writeChunk_props env _ _).1.isHead
+      · exact ((writeChunk_props env _ _).1.isHead).trans ((writeChunk_props env _ _).1.isHead)
+
+theorem rwFlush_isHead (env : Env) (s : St) : (rwFlush env s).isHead = s.isHead := by
+  unfold rwFlush rwFlushHead rwFlushGet
+  split
+  · split
+    · split
+      · rfl
+      · split
+        · exact (writeChunk_props env _ _).1.isHead
+        · exact (writeChunk_props env _ _).1.isHead
+    · exact (writeChunk_props env _ _).1.isHead
+  · split
+    · exact (writeChunk_props env _ _).1.isHead
+    · exact (writeChunk_props env _ _).1.isHead
 
 theorem step_isHead (env : Env) (s : St) (a : Act) : (step env s a).isHead = s.isHead := by
   cases a with
@@ -549,21 +619,15 @@ theorem step_isHead (env : Env) (s : St) (a : Act) : (step env s a).isHead = s.i
     · exact e1
     · split
       · exact e1
-      · simp only []
-        unfold bwWrite
-        split
-        · exact e1
-        · split
-          · exact ((writeChunk_props env _ p).1.isHead).trans e1
-          · simp only []
-            split
-            · exact ((writeChunk_props env _ _).1.isHead).trans e1
-            · exact ((writeChunk_props env _ _).1.isHead).trans (((writeChunk_props env _ _).1.isHead).trans e1)
-  | flush =>
-    simp only [step, rwFlush]
-    split
-    · exact (writeChunk_props env _ _).1.isHead
-    · exact (writeChunk_props env _ _).1.isHead
+      · split
+        · unfold rwWriteHead
+          split
+          · exact e1
+          · split
+            · exact (bwWrite_isHead env _ p).trans e1
+            · exact (bwWrite_isHead env _ p).trans e1
+        · exact (bwWrite_isHead env _ p).trans e1
+  | flush => exact rwFlush_isHead env s
 
 theorem good_foldl (env : Env) (acts : List Act) (s : St) (hg : Good s) :
     Good (acts.foldl (step env) s) ∧ (acts.foldl (step env) s).isHead = s.isHead := by
@@ -580,13 +644,13 @@ theorem good_init (isHead : Bool) : Good { isHead := isHead } := by
   · intro f hf; cases hf
 
 theorem good_run (env : Env) (isHead : Bool) (acts : List Act) :
-    Good (runHandler env isHead acts) ∧ (runHandler env isHead acts).buf = [] ∧
+    Good (runHandler env isHead acts) ∧ (isHead = false → (runHandler env isHead acts).buf = []) ∧
     (runHandler env isHead acts).isHead = isHead := by
   unfold runHandler
   obtain ⟨h1, h2⟩ := good_foldl env acts { isHead := isHead } (good_init isHead)
   have h3 : Good { acts.foldl (step env) { isHead := isHead } with handlerDone := true } :=
     ⟨⟨h1.inv.snap, h1.inv.tr, h1.inv.out⟩, h1.get, h1.head⟩
   obtain ⟨f1, f2, _, f4⟩ := good_rwFlush env _ h3
-  exact ⟨f1, f2, f4.trans h2⟩
+  exact ⟨f1, fun h => f2 (by simp only []; rw [h2]; exact h), f4.trans h2⟩
 
 end BfeVerif.C38
